@@ -1,6 +1,7 @@
 import TrackVerif.Common.Proto
 import TrackVerif.Driver.Dec
 import TrackVerif.TA.Driver
+import TrackVerif.Conv.Driver
 /-
   Line-protocol driver.  One case per input line:
       AREA op arg… => impl-output-tokens…
@@ -27,6 +28,7 @@ def dispatch (line : String) : String :=
     match area with
     | "DEC" => Driver.Dec.handle args impl
     | "TA" => TA.Driver.handle args impl
+    | "CV" => Conv.Driver.handle args impl
     | _ => "BAD"
 
 partial def loop (h : IO.FS.Stream) (out : IO.FS.Stream) : IO Unit := do
